@@ -96,12 +96,12 @@ RULES.update({
            "(outputs, counts, all getters); distinct = distinct (sample type, configuration class, pre-shape, post-shape)",
     "C11": "case = (configuration with 1..8 channels, history); either an n-channel instance against n single-channel twins on per-channel "
            "distinct signals, or a constant-mask run against an unmasked twin (inactive channels passed as empty slices at random), compared bit-for-bit; "
-           "sentinel scan of inactive output channels; distinct = (sample type, configuration class, channels, twin kind, history shape)",
+           "40% of the masked twins drop the mask mid-history (every channel must then be written at once and, two filter lengths later, equal the never-masked twin); sentinel scan of inactive output channels; distinct = (sample type, configuration class, channels, twin kind, history shape)",
     "C12": "case = configuration + script of 10..60 setter calls (exact bounds, 1..5-ulp neighbours inside and outside, interior, exterior, NaN/inf/0/negative/subnormal; "
            "chunk sizes 0,1,max,max+1,usize::MAX,random) interleaved with processing calls on the instance and on a twin that only sees the accepted calls; "
-           "10% of the scripts go through Box<dyn VecResampler>; trivial = none; distinct = (sample type, configuration class, script id mod 64)",
+           "10% of the scripts go through Box<dyn VecResampler>; reset() on both twins is one of the scripted calls; trivial = none; distinct = (sample type, configuration class, script id mod 64)",
     "C13": "case = valid history with 1..6 malformed calls (too few/many input or output channels, one active channel short by 1..all, mask too short/long, "
-           "also through process(), process_partial and process_partial_into_buffer) inserted at random points, lock-step twin without them; case 0 = constructor table; trivial = no malformed shape was applicable "
+           "also through process(), process_partial and process_partial_into_buffer) inserted at random points, lock-step twin without them; case 0 = constructor table (all seven types x f32/f64 x new / new_with_interpolator); trivial = no malformed shape was applicable "
            "(e.g. zero-length requirement); distinct = (sample type, configuration class, history shape, malformed shapes)",
     "C16": "case = wrapper-heavy history (process(), process_partial(_into_buffer)(Some|None), flush tails) against a twin that only uses process_into_buffer "
            "on explicitly zero-padded input, or Box<dyn VecResampler> against direct calls; bit-exact comparison of outputs, counts and getters per call; a panic on one side only is a violation",
@@ -138,7 +138,7 @@ PLANS.update({
 RULES.update({
     "C05": "case = one noise stream (2e3..4e4 input frames, constant ratio, optionally set once before the first call) run through two twins: two chunk sizes, FixedIn vs FixedOut, "
            "a random set_chunk_size schedule vs constant size (sinc), exactly sized buffers vs input slices up to two blocks longer (12%), or two FFT variants/(chunk, sub_chunks) pairs resolving to the same FFT block; "
-           "a run that fails while its twin completes is a violation; common output prefix compared "
+           "a run that fails while its twin completes is a violation; twin a has had an earlier life + reset() in 10% and a no-op set_resample_ratio_relative(1.0) in 30% of the cases, twin b is always fresh and driven directly; common output prefix compared "
            "to an accumulated-position-rounding bound (FFT: bit-exact); Nearest modes: frames whose quantised instants (from an index-signal run of both twins) differ by one grid step "
            "are excluded and counted; trivial = the twin happened to be identical to the original",
     "C06": "case = (asynchronous configuration, history with 20-50% ratio changes across the whole permitted interval, stepped and ramped, chunk-size changes, resets) fed with the index signal; "
@@ -146,8 +146,8 @@ RULES.update({
            "contiguous supplied windows; 10% through Box<dyn VecResampler>; trivial = no spacing could be checked (start-up only)",
     "C07": "case = one constant-ratio stream of up to 3e5 (quick) / 2.5e6 (thorough) calls with allocate-time buffers, 35% of them with chunk size 1..4, optional set_chunk_size schedule, "
            "optional ratio set once, 15% of the adjustable streams with a relative-ratio detour (relative(x1) .. relative(x2), accounting restarts at original*x2), 15% driven through process()/process_partial() "
-           "with the returned lengths counted and 32 accounted flush calls; the running totals are checked after every call",
-    "C08": "case = polynomial resampler + (polynomial of admissible degree in Chebyshev basis | degree+1 polynomial (sensitivity probe, no verdict) | sinusoid); instants measured by an index-signal twin run",
+           "with the returned lengths counted and 32 accounted flush calls, 20% sprinkled with refused setter calls, half of the reset streams staying at the construction ratio; the running totals are checked after every call",
+    "C08": "case = polynomial resampler + (polynomial of admissible degree in Chebyshev basis | degree+1 polynomial (sensitivity probe, no verdict) | sinusoid); instants measured by an index-signal twin run; the value run has had an earlier life + reset() in 10% and a no-op set_resample_ratio_relative(1.0) in 30% of the constant-ratio cases",
 })
 META.update({
     "C05": dict(technique="runtime monitoring: differential twins over whole streams (two chunkings / variants / set_chunk_size schedules), rounding-bound oracle, bit-exact for FFT",
@@ -180,9 +180,9 @@ PLANS.update({
 })
 RULES.update({
     "C14": "case = configuration (+ optional ratio set before the first call) + Gaussian pulse at a random input position; the first moment of the whole output stream is compared with n*ratio + output_delay(); "
-           "the README recipe is executed literally on the same stream; 12% of the cases read the delay and stream through Box<dyn VecResampler>, 12% on an instance with an earlier life and reset(), 15% of the sinc cases under a set_chunk_size schedule; trivial = none",
+           "the README recipe is executed literally on the same stream; 12% of the cases read the delay and stream through Box<dyn VecResampler>, 12% on an instance with an earlier life (setters, masked calls) and reset(), 15% of the sinc cases under a set_chunk_size schedule, a no-op set_resample_ratio_relative(1.0) before 30% of the clips; a pulse whose mass is below 5% of the expected one is lost (violation), between 5% and 50% unusable (inconclusive); trivial = none",
     "C15": "75% kernel cases: Scalar/AVX/SSE interpolators from identical parameters, sinc_len swept over every multiple of 8 up to 512, subindices incl. first/last, slice start offsets 0..8, NaN outside the window, "
-           "5 waveform styles (dynamic range 1e600 / 1e60, +-0, denormals); 25% stream cases: one resampler per kernel via new_with_interpolator plus the dispatching constructor over a random history",
+           "5 waveform styles (dynamic range 1e600 / 1e60, +-0, denormals); 25% stream cases: one resampler per kernel via new_with_interpolator plus the dispatching constructor over a random history; every kernel call is at the highest legal index for its slice, a kernel that panics there (or where another kernel completes) is a violation",
     "C18": "case = 4..24 work items (configuration, history, signal, sample type) executed single-threaded (reference, twice) and then by 2/4/8/16 threads taking instances from a shared pool 1..4 calls at a time; "
            "distinct = distinct (thread count, item count, case) tuples; per-call hashes cover all output bits, counts and getters; a third of the items are sent rejected (malformed) calls between their ops, "
            "a third carry a signal in the subnormal range of their sample type; the calling thread's MXCSR control bits are read before and after every call; every 8th case is a cold start (2-4 fresh child processes whose 8/16 threads, released together, construct and drive 16 instances as the first thing the process does)",
@@ -213,6 +213,7 @@ RULES.update({
     "C01": "stage ir: (window, sinc_len) enumerated - quick every 4th multiple of 8 in [32,2048] (offset by the seed), thorough all 253 - with f_cutoff in {cc, 0.7cc, 0.9cc} and construction ratios < 1; the prototype filter is read out of the live "
            "resampler (Nearest mode driven at ratio = oversampling) and checked for symmetry, unit DC gain of every polyphase branch, pass-band ripple and image-band leakage. stage band: random configuration of the five anti-aliased types "
            "(r in [1/16,16], L in [64,512], all windows/interpolations, N up to 2048, FFT blocks in [32,16384]) with 1..4 tones below the pass edge (one at 0.999 of it); least-squares fit of amplitudes, delays and residual on a steady-state segment; "
+           "15% of the sinc cases under a set_chunk_size schedule, 12% on an instance with an earlier life + reset(), 6% with input slices up to two blocks longer than required, 30% of the sinc cases with a no-op set_resample_ratio_relative(1.0); "
            "trivial = empty/too narrow pass band or FFT block outside the domain",
     "C02": "stage ir: as for C01, stop-band maximum over [stop edge, N/2] and the -6 dB point. stage band: one stop-band tone (uniform between the stop edge and the input Nyquist) or, when up-sampling, an arbitrary input tone whose fundamental is fitted "
            "and removed; two runs 90 degrees apart, phase-averaged output power against the window's rejection figure - 3.5 dB (two coincident components + 0.5 dB guard) + twice the textbook interpolation bound; trivial = no stop band below the input Nyquist",
